@@ -5,7 +5,7 @@ NOT_APPLICABLE = {("C%02d" % i): PENDING for i in range(1, 21)}
 
 META = {
     "C01": {
-        "text": 'PARTIAL proof. Coq theorems (all Hamiltonian tables, cutoffs, strings, betas; no bounds). HEADLINE (unconditional): for every Ising model without longitudinal field, every beta > 0 and cutoff, the default pipeline (Metropolis diagonal update, cluster update with validated decomposition, free-spin refresh) leaves the SSE weight stationary on the space of ALL consistent legal configurations; where the validators pass the validated cluster stage is the model's cluster update, and the validity test is the one evaluated in Coq on every replayed configuration. Kernel identification: the WHOLE Metropolis diagonal update, as a program on complete configurations (p = 0 state, operator string) — the very term replayed against the implementation on raw RNG words — leaves the SSE weight beta^n (L-n)!/L! prod w stationary on the space of ALL consistent legal configurations (enumeration proved complete): sum_x W(x) E_{update(x)}[f] = sum_x W(x) f(x) for every observable f, and pointwise sum_x W(x) P(x->y) = W(y). Ingredients, all proved: the sweep program equals the composition of single-slot kernels; each single-slot kernel is in detailed balance with W between any two configurations, keeps the space and has total mass 1 (zero-weight operators have probability zero entry by entry); stationarity composes. The whole default pipeline diagonal update -> cluster update (one fair bit per cluster, involution, weight kept) -> free-spin refresh is proved stationary as ONE program for h = 0 on every space closed under the moves on which the decomposition passes the C09 validators; the hypotheses are decidable and hold on a fully enumerated example space (flow equation evaluated at all 30 configurations); the pipeline is proved equal to the model of QmcIsingGraph::timestep; the same with a longitudinal field (weighted cluster update: clusters holding a field operator have probability 0; conditions asked only of flip vectors of non-zero probability, decidable, checked on an example space with a field term: 42 configurations). Also: matrix elements are those of H; clusters with a field operator flip with probability 0. NOT proved: ergodicity (hence convergence), the estimator identities, that decompose always yields a validated labelling, that the per-flip conditions of the weighted cluster update hold on every space (hypotheses, decidable). These are decided by long runs of the real sampler against exact diagonalisation (energy, magnetisations, correlations, operator counts per bond; h = 0, +, -).',
+        "text": 'PARTIAL proof. Coq theorems (all Hamiltonian tables, cutoffs, strings, betas; no bounds). HEADLINE (unconditional): for every Ising model without longitudinal field, every beta > 0 and cutoff, the default pipeline (Metropolis diagonal update, cluster update with validated decomposition, free-spin refresh) leaves the SSE weight stationary on the space of ALL consistent legal configurations; where the validators pass the validated cluster stage is the cluster update of the model, and the validity test is the one evaluated in Coq on every replayed configuration. Kernel identification: the WHOLE Metropolis diagonal update, as a program on complete configurations (p = 0 state, operator string) — the very term replayed against the implementation on raw RNG words — leaves the SSE weight beta^n (L-n)!/L! prod w stationary on the space of ALL consistent legal configurations (enumeration proved complete): sum_x W(x) E_{update(x)}[f] = sum_x W(x) f(x) for every observable f, and pointwise sum_x W(x) P(x->y) = W(y). Ingredients, all proved: the sweep program equals the composition of single-slot kernels; each single-slot kernel is in detailed balance with W between any two configurations, keeps the space and has total mass 1 (zero-weight operators have probability zero entry by entry); stationarity composes. The whole default pipeline diagonal update -> cluster update (one fair bit per cluster, involution, weight kept) -> free-spin refresh is proved stationary as ONE program for h = 0 on every space closed under the moves on which the decomposition passes the C09 validators; the hypotheses are decidable and hold on a fully enumerated example space (flow equation evaluated at all 30 configurations); the pipeline is proved equal to the model of QmcIsingGraph::timestep; the same with a longitudinal field (weighted cluster update: clusters holding a field operator have probability 0; conditions asked only of flip vectors of non-zero probability, decidable, checked on an example space with a field term: 42 configurations). Also: matrix elements are those of H; clusters with a field operator flip with probability 0. NOT proved: ergodicity (hence convergence), the estimator identities, that decompose always yields a validated labelling, that the per-flip conditions of the weighted cluster update hold on every space (hypotheses, decidable). These are decided by long runs of the real sampler against exact diagonalisation (energy, magnetisations, correlations, operator counts per bond; h = 0, +, -).',
         "note": "Trusted: Coq kernel + vm_compute; model transcriptions (validated by raw-tape replay of every public call); f64 exact-diagonalisation oracle with 6 sigma + 0.02 tolerance and a confirmation run. Stationarity of the model's update programs is a theorem; ergodicity / convergence itself is oracle-tested, not proved.",
         "technique": 'Coq proof (expectation monad law, detailed balance of every single-slot kernel on the complete configuration space, sweep = composition of slot kernels, stationarity of the whole diagonal update and of the whole h = 0 pipeline) + raw-tape replay of whole timesteps + exact-diagonalisation oracle',
         "design_ref": "DESIGN.md §3 C01",
